@@ -114,12 +114,22 @@ def observed_line(scen, res) -> str:
     return " | ".join(out)
 
 
+def truly_succeeded(plan: str, attempt: int) -> bool:
+    """ground truth from the scripted plan: the command exited 0 and wrote the requested file"""
+    if plan == "S":
+        return True
+    if plan.startswith("N"):
+        return attempt >= int(plan[1:].split(",")[0])
+    return False        # F<c>, W<c>, O
+
+
 def oracle(ctx, scen, res):
     """clauses of the property checked on the observations alone"""
     items = scen["items"]
     src_keys = {it["key"] for it in items}
     dest = {p["key"]: p["marker"] for p in scen["pre_dest"]}
     last_tag = {}      # job -> tag of its latest execution
+    attempts = {}      # job -> number of executions so far (counter files)
     cache = {}         # job -> (exitcode, payload) as last observed
     for ri, (r, rec) in enumerate(zip(scen["runs"], res["runs"])):
         tag = {"history": scen, "run": ri}
@@ -150,9 +160,14 @@ def oracle(ctx, scen, res):
             if not valid and j not in ex:
                 why = "no cache" if j not in cache else ("failed run" if cache[j][0] != 0 else "different input")
                 ctx.violation("C18:invalid-cache-reused", f"run {ri}: job {j} was not executed although its cache is unusable ({why})", tag)
+            elif j not in ex and attempts.get(j) and not truly_succeeded(scen["plans"].get(j, "S"), attempts[j]):
+                ctx.violation("C18:failed-run-output-reused",
+                              f"run {ri}: job {j} was not executed again although its latest run (attempt {attempts[j]}, plan {scen['plans'].get(j, 'S')}) "
+                              f"did not succeed; the cache file records exit code {cache[j][0]}", tag)
         for j in ex:
             last_tag[j] = r["tag"]
         cache = {j: tuple(v) for j, v in rec["cache"].items()}
+        attempts = dict(rec["attempts"])
         # destination
         for k, v in dest.items():
             if rec["dest"].get(k) != v:
